@@ -60,3 +60,8 @@ func VerifSendsimRegionValid(c *RegionCache, id RegionVerID) bool {
 // VerifSendsimMaxReplicaAttempt exposes the per-replica attempt limit of the
 // selector (used only to size the harness' attempt budget, not as an oracle).
 func VerifSendsimMaxReplicaAttempt() int { return maxReplicaAttempt }
+
+// VerifSendsimSetForwarding switches request forwarding of this cache on or off (the
+// library reads it from the global configuration when the cache is created; the
+// package's own tests set the field directly).
+func VerifSendsimSetForwarding(c *RegionCache, on bool) { c.enableForwarding = on }
